@@ -79,7 +79,7 @@ CLAIMS = {
          "Options.Add on a nil container loses the option (known finding D18: value receiver; carved out exactly, proved for every non-nil container). "),
  "C17": ("Bit-vector proofs over all 2^64 ids: CombineMsgID places each in-range field at the CMPP bit positions, SplitMsgID returns those fields, split-then-combine is the identity, "
          "every split field is below its decimal print width.",
-         "The decimal string form goes through fmt.Sprintf/Sscanf (%0Nd): assumed (A-FMT), not proved. "),
+         "The decimal string form (MsgID2String / MsgIDString2Uint64) goes through fmt.Sprintf/Sscanf with a seven-field format: its contracts are assumed and a BOUNDED stand-in (TestValidator_MSGID: all {0,1,max} field combinations, single-bit ids, 4*10^4 / 2*10^5 random ids; print == 22-digit form of the fields, parse(print(id)) == id, 0 <-> empty) runs on every check; not proved. "),
  "C18": ("smpp34.findSubValue, smgp30.findSubValue (both key spellings), findSMGPIDValue and both ExtractDeliveryReceipt proved per call against strings.Index's defining property: the value returned for a key is exactly the characters after the first occurrence of `key:` up to the next space or the end "
          "(SMGP: cut to the field width; id: hex of the ten octets after `id:`), empty if the key is absent, never a panic; the CMPP status-report body (SubPduDeliveryContent) is proved like the PDUs of C01/C02. Repaired: D7.",
          "Assumed, not proved (A-TOK): that for receipts built from the eight keys in any order and subset the first occurrence of each key token is its field (a combinatorial fact about the fixed token set under the property's value restrictions). strings.Index is an assumed model. "),
